@@ -1494,6 +1494,12 @@ class Exec(object):
             raise Unsupported("math.floor (float) is not modelled")
         if name == "deepcopy":
             return args[0]
+        if name == "Counter" and len(args) == 1 and isinstance(args[0], VList) and args[0].conc is not None \
+                and len(args[0].conc) == 0 and not kw:
+            # collections.Counter([]): an empty table of counts (a missing key counts 0)
+            self.trusted.add("collections.Counter([]) is an empty table; Counter.update([k]) adds one to the count of k "
+                             "(0 when absent)")
+            return VRec("dict", {})
         raise Unsupported("external function %r" % (name,))
 
     def call_class(self, q, args, kw, st, node):
@@ -1944,6 +1950,16 @@ class Exec(object):
             return VNone
         if isinstance(obj, VMap) and meth == "get" and len(args) == 2:
             return obj.get_default(args[0], args[1])
+        if isinstance(obj, VMap) and meth == "update" and len(args) == 1 and obj.level() == obj.depth - 1 \
+                and isinstance(args[0], (VList, list)) and not kw:
+            # Counter.update([k]) on the innermost level of a table of counts
+            lst = self.iter_list(args[0], st, node)
+            if lst.conc is None or len(lst.conc) != 1:
+                raise Unsupported("Counter.update with other than a one-element list")
+            k = lst.conc[0]
+            new = obj.store(k, VInt(toint(obj.get_default(k, 0)) + 1))
+            self.assign(_store(fnode.value), new, st)
+            return VNone
         if isinstance(obj, (VStr, str)):
             return self.str_method(obj, meth, args, st, node)
         if isinstance(obj, VRec) and obj.cls == "dict" and meth in ("keys", "values", "items"):
